@@ -225,7 +225,9 @@ Case gen_c13(uint64_t seed, int tier)
   c.cfg["gmt"] = gmt;
   // pattern assembled from conversions the formatter accepts
   static char const* const conv[] = {"%H", "%M", "%S", "%I", "%k", "%l", "%p", "%Y", "%m", "%d", "%y", "%b", "%a", "%j", "%e",
-                                     "%T", "%R", "%D", "%F", "%Z", "%z", "%C", "%u", "%h", "%B", "%A", "%n", "%t", "%r", "%c"};
+                                     "%T", "%R", "%D", "%F", "%Z", "%z", "%C", "%u", "%h", "%B", "%A", "%n", "%t", "%r", "%c",
+                                     // further plain conversions of libc's strftime (all change at midnight, %P at noon too)
+                                     "%P", "%G", "%g", "%U", "%V", "%W", "%w", "%x"};
   static char const* const lit[] = {":", "-", " ", ".", "/", "T", "_", "", "", " at ", "|"};
   int n = static_cast<int>(r.range(1, 8));
   int frac_pos = r.chance(3, 4) ? static_cast<int>(r.below(static_cast<uint32_t>(n + 1))) : -1;
@@ -241,7 +243,7 @@ Case gen_c13(uint64_t seed, int tier)
     }
     if (i < n)
     {
-      std::string cv = conv[r.below(30)];
+      std::string cv = conv[r.below(static_cast<uint32_t>(sizeof(conv) / sizeof(conv[0])))];
       if (use_s && r.chance(1, 3) && (!gmt || process_utc))
       {
         cv = "%s"; // only where libc's own %s is meaningful
